@@ -18,7 +18,12 @@ func main() {
 	repo := flag.String("repo", envOr("VERIF_REPO", "/repo"), "repository directory")
 	verif := flag.String("verif", envOr("VERIF_DIR", "/verif"), "verif directory (evidence, reports, known_findings.json)")
 	selftest := flag.Bool("selftest", false, "run the overlay kill-matrix for -prop (tests the checker, not the repository)")
+	debug := flag.String("debug", "", "debug: traces:<rule>")
 	flag.Parse()
+	if strings.HasPrefix(*debug, "traces:") {
+		engine.DebugTraces(*repo, strings.TrimPrefix(*debug, "traces:"))
+		return
+	}
 	if t := os.Getenv("VERIF_TIER"); t != "" && !isFlagSet("tier") {
 		*tier = t
 	}
